@@ -8,6 +8,7 @@ CONSTANTS
   BugUseFlagAll = FALSE
   BugOptionalOrigState = FALSE
   BugNames = "none"
+  BugErrorState = "none"
   BugMissingIsOther = FALSE
   BugUsage = "flag_no_short"
 VIEW View
